@@ -444,6 +444,29 @@ def q3(repo, res, canon, pc, logic):
                                     'cross-machine predecessors (and only those) are collected and passed to the cluster',
                                     'ok' if ok else why)
         res.ok('C03.Q3', s, sp[0] if sp else None, '(the list is built in the submitting function itself)')
+    # (2b) every submitted task is entered in the allocation record with the machine it got: its
+    # successors look their predecessors up there (a missing entry is a KeyError, a wrong machine a
+    # wrong transfer decision)
+    if sp:
+        a = bound_args(repo, 'Cluster.allocate_task_to_cluster', sp[0].args[0], sfr)
+        T, M = canon.c(a['task'], sfr), canon.c(a['machine'], sfr)
+        loops_ = [l for l in enclosing_loops(s, sp[0]) if isinstance(l, ast.For)]
+        okr, whyr, nseg = True, '', 0
+        if loops_:
+            for seg, how in iteration_segments(s, loops_[-1]):
+                if how == 'raise' or not any(e.kind == 'stmt' and any(x is sp[0] for x in ast.walk(e.node)) for e in seg):
+                    continue
+                nseg += 1
+                recs = [ef for e, efs in effects_along(canon, seg) for ef in efs
+                        if ef.kind == 'store' and ef.arg in ('%s.id' % T, T) and ef.value is not None
+                        and isinstance(ef.value, ast.Tuple) and len(ef.value.elts) == 2]
+                good = [ef for ef in recs if canon.c(ef.value.elts[0], sfr) == T and canon.c(ef.value.elts[1], sfr) == M]
+                if not good:
+                    okr, whyr = False, ('a task is submitted to the cluster without being entered in the allocation record as '
+                                        '(task, machine) under its id: its successors cannot find where it ran (KeyError, or a '
+                                        'transfer wait decided against the wrong machine)')
+        (res.ok if okr and nseg else res.bad)('C03.Q3', s, sp[0], 'a submitted task is recorded as allocations[task.id] = (task, machine)',
+                                              'ok' if okr and nseg else whyr or 'no submitting iteration found')
     c = repo.func('Cluster.allocate_task_to_cluster')
     cfr = Frame(c)
     n_ok = n_bad = 0
